@@ -204,6 +204,20 @@ def STRUCT_LOOPS(header):
     return None
 
 
+def BV_LOOPS(header):
+    seen = ("forall|i: int, j: int| 0 <= i < {I} && 0 <= j < rows@[i].columns@.len() ==> var_ty@.dom().contains((#[trigger] rows@[i].columns@[j]).var@),\n"
+            "  forall|v: Seq<char>| var_ty@.dom().contains(v) ==> tested_at(rows@, v, #[trigger] var_ty@[v]),")
+    if "__ri <" in header:
+        return "invariant __ri <= rows@.len(),\n  " + seen.format(I="__ri") + "\ndecreases rows@.len() - __ri,"
+    if "__cj <" in header:
+        return ("invariant 0 < __ri <= rows@.len(), __cj <= row.columns@.len(), *row == rows@[__ri - 1],\n  " + seen.format(I="__ri - 1") + "\n"
+                "  forall|j: int| 0 <= j < __cj ==> var_ty@.dom().contains((#[trigger] row.columns@[j]).var@),\n"
+                "decreases row.columns@.len() - __cj,")
+    if "__bi <" in header:
+        return "invariant __best < __cs@.len(), 1 <= __bi, *__cs == rows@[0].columns,\ndecreases __cs@.len() - __bi,"
+    return None
+
+
 UNIT = Unit(
     name="U-ROWS",
     properties=["C06"],
@@ -242,9 +256,9 @@ UNIT = Unit(
                                           "&& result@[i].columns@[0].pat == arms@[i].pat && result@[i].body == arms@[i].body,\ndecreases arms@.len() - __ai,")),
         Fn(file=CM, name="remove_column", container="Row", ret="r",
            pre_rewrites=[("for (i, col) in self.columns.iter().enumerate() {", "let mut __ci: usize = 0; while __ci < self.columns.len() { let i = __ci; let col = &self.columns[__ci]; __ci += 1;")],
-           rewrites=[("if col.var == var {", "if string_eq_str(&col.var, var) {"), ("let mut index = None;", "let mut index: Option<usize> = None;")],
-           ghost=[("?return Some(col);", "line-before", "proof { let k = i as int; assert(col == old(self).columns@[k]); assert(self.columns@ == old(self).columns@.remove(k)); assert(col.var@ == var@); "
-                   "assert(forall|j: int| 0 <= j < k ==> (#[trigger] old(self).columns@[j]).var@ != var@); assert(col_of(*old(self), var@, k)); }")],
+           rewrites=[("if col.var == var {", "if string_eq_str(&col.var, var) {"), ("let mut index = None;", "let mut index: Option<usize> = None;"),
+                     # proof hint in front of the `return Some(<the removed column>)`, whatever that local is called
+                     (re.compile(r"\n([ \t]*)return Some\((\w+)\);"), "\n\\1" + 'proof { let k = i as int; assert(\\2 == old(self).columns@[k]); assert(self.columns@ == old(self).columns@.remove(k)); assert(\\2.var@ == var@); assert(forall|j: int| 0 <= j < k ==> (#[trigger] old(self).columns@[j]).var@ != var@); assert(col_of(*old(self), var@, k)); }' + "\n\\1return Some(\\2);", "*")],
            obligation="removes exactly the FIRST column for the variable and returns it; other columns keep their order; None iff there is none",
            contract="""ensures final(self).body == old(self).body,
             r is None ==> final(self).columns@ == old(self).columns@ && forall|j: int| 0 <= j < old(self).columns@.len() ==> (#[trigger] old(self).columns@[j]).var@ != var@,
@@ -458,6 +472,29 @@ UNIT = Unit(
                "invariant __rv@.len() <= rows0.len(), __rv@ == rows0.subrange(rows0.len() - __rv@.len(), rows0.len() as int), rows0 == rows@,\n"
                f"  new_rows@.len() == rows0.len() - __rv@.len(), forall|k: int| 0 <= k < new_rows@.len() ==> unit_row(rows0[k], {V}, #[trigger] new_rows@[k]),\n"
                "decreases __rv@.len(),")),
+        Fn(file=CM, name="branch_variable", ret="r", attrs="#[verifier::loop_isolation(false)]", rules=["attrs", ("strip", "tast::")],
+           pre_rewrites=[
+               ("for row in rows {", "let mut __ri: usize = 0; while __ri < rows.len() { let row = &rows[__ri]; __ri += 1;"),
+               ("for col in &row.columns {", "let mut __cj: usize = 0; while __cj < row.columns.len() { let col = &row.columns[__cj]; __cj += 1;"),
+               ("*counts.entry(&col.var).or_insert(0_usize) += 1;", "counts.bump(&col.var);"),
+               # `C.iter().map(|c| c.var.clone()).max_by_key(|v| counts[v]).unwrap()`: std semantics (the LAST element with the greatest key; panics on an empty C)
+               (re.compile(r"let var = ([^;]+?)\s*\.iter\(\)\s*\.map\(\|(\w+)\| \2\.var\.clone\(\)\)\s*\.max_by_key\(\|(\w+)\| counts\[\3\]\)\s*\.unwrap\(\);"),
+                r"let __cs = &\1; let mut __best: usize = 0; let mut __bi: usize = 1; while __bi < __cs.len() { "
+                r"if counts.get_count(&__cs[__bi].var) >= counts.get_count(&__cs[__best].var) { __best = __bi; } __bi += 1; } let var = __cs[__best].var.clone();", "*"),
+               # min_by_key: the FIRST element with the least key
+               (re.compile(r"let var = ([^;]+?)\s*\.iter\(\)\s*\.map\(\|(\w+)\| \2\.var\.clone\(\)\)\s*\.min_by_key\(\|(\w+)\| counts\[\3\]\)\s*\.unwrap\(\);"),
+                r"let __cs = &\1; let mut __best: usize = 0; let mut __bi: usize = 1; while __bi < __cs.len() { "
+                r"if counts.get_count(&__cs[__bi].var) < counts.get_count(&__cs[__best].var) { __best = __bi; } __bi += 1; } let var = __cs[__best].var.clone();", "*"),
+           ],
+           rewrites=[("rows: &[Row]", "rows: &Vec<Row>"), ("let mut counts = HashMap::new();", "let mut counts = CountMap::new();"),
+                     ("let mut var_ty: HashMap<String, Ty> = HashMap::new();", "let mut var_ty: TyMap = TyMap::new();"),
+                     ("var_ty[&var]", "var_ty.index(&var)"), (re.compile(r"\.clone\(\)"), ".vclone()", "*")],
+           obligation="the branch variable is one the FIRST row tests (so the split makes progress and the first row's test is what the case "
+                      "functions expect), its type is the type of a pattern some row tests against it, and the table lookup cannot panic",
+           contract="""requires rows@.len() > 0, rows@[0].columns@.len() > 0,
+        ensures exists|k: int| 0 <= k < rows@[0].columns@.len() && r.name@ == (#[trigger] rows@[0].columns@[k]).var@,
+            tested_at(rows@, r.name@, r.ty),""",
+           loop_fn=lambda k, header, kw: BV_LOOPS(header)),
         Adt(file="crates/compiler/src/env.rs", kw="struct", name="EnumDef", rules=["attrs", ("strip", "tast::")]),
         Fn(file=CM, name="compile_enum_case", rename="enum_case_cases", ret="r", attrs="#[verifier::loop_isolation(false)]", rules=["attrs", ("strip", "tast::"), "iter_map_collect"],
            cut_from="let cases: Vec<ConstructorCase> = tydef", cut_before="let mut results = Vec::new();", cut_tail="    cases",
